@@ -285,7 +285,13 @@ func (p *exprParser) unary() Expr {
 			}
 			// type: sequence of tokens up to :: or ,
 			var ty strings.Builder
-			for !p.isOp("::") && !p.isOp(",") && p.peek().kind != "eof" {
+			depth := 0
+			for !p.isOp("::") && !(p.isOp(",") && depth == 0) && p.peek().kind != "eof" {
+				if p.isOp("[") {
+					depth++
+				} else if p.isOp("]") {
+					depth--
+				}
 				ty.WriteString(p.next().text)
 			}
 			if ty.Len() == 0 {
